@@ -26,6 +26,7 @@ type c07Params struct {
 	ChanCap  int  // 0 = real capacity (32); 2 = capacity-scaled abstraction
 	Probe    bool // every handler calls the client's query API (Me, Connected, StateTracker, String) while it runs
 	Tracking bool // state tracking on; the backlog consists of JOINs of other users
+	LongQuit bool // a user task writes a 5000-byte line and QUIT just before the cause (the socket buffer is mid-line at teardown)
 }
 
 func (p c07Params) name() string {
@@ -35,6 +36,9 @@ func (p c07Params) name() string {
 	}
 	if p.Tracking {
 		n += "/tracking"
+	}
+	if p.LongQuit {
+		n += "/longquit"
 	}
 	return n
 }
@@ -132,6 +136,10 @@ func c07Scenario(p c07Params) *explore.Scenario {
 		if p.Mode == "gated" {
 			gate.Set()
 		}
+		if p.LongQuit {
+			c.Raw(c07LongLine)
+			c.Quit("bye")
+		}
 		vx.Observe("ev", "cause-begin "+p.Cause)
 		switch p.Cause {
 		case "close":
@@ -179,9 +187,68 @@ func c07Scenario(p c07Params) *explore.Scenario {
 		if len(ev) > 0 && ev[len(ev)-1] != "end connected=false" {
 			fs = append(fs, explore.Finding{Oracle: "still-connected", Msg: "Connected() is true after the disconnect: " + ev[len(ev)-1]})
 		}
+		// whatever reached the wire before the teardown must be whole lines the client was asked to send
+		// (C08 / C09 in the presence of a teardown); the last line may be cut short by the closing socket
+		for _, vc := range o.Conns {
+			if msg := c07WireIntegrity(p, vc.Transcript()); msg != "" {
+				fs = append(fs, explore.Finding{Oracle: "wire-torn", Msg: msg})
+			}
+		}
 		return fs
 	}
 	return sc
+}
+
+var c07LongLine = "PRIVMSG #c :LONG" + strings.Repeat("x", 5000)
+
+// c07WireIntegrity: every complete line on the wire is one the scenario issues, the unterminated rest (if the
+// socket was closed mid-line) is a prefix of one.
+func c07WireIntegrity(p c07Params, tr string) string {
+	known := func(l string) bool {
+		switch {
+		case l == "NICK me", strings.HasPrefix(l, "USER ident "), l == c07LongLine, l == "QUIT :bye", NormLine(l) == "PONG :provoke-a-write":
+			return true
+		case strings.HasPrefix(l, "PRIVMSG #c :echo "), strings.HasPrefix(l, "PRIVMSG #c :user "):
+			rest := l[strings.LastIndex(l, " ")+1:]
+			for _, c := range rest {
+				if c < '0' || c > '9' {
+					return false
+				}
+			}
+			return rest != ""
+		case l == "MODE #c", l == "WHO #c", strings.HasPrefix(l, "WHO u"):
+			return p.Tracking
+		}
+		return false
+	}
+	parts := strings.Split(tr, "\r\n")
+	for _, l := range parts[:len(parts)-1] {
+		if !known(l) {
+			return "a line on the wire was never issued (torn or glued lines): " + Q(l[:min(len(l), 120)])
+		}
+	}
+	tail := parts[len(parts)-1]
+	if tail == "" {
+		return ""
+	}
+	for _, full := range []string{"NICK me", "USER ident 12 * :Real Name", c07LongLine, "QUIT :bye", "PONG :provoke-a-write", "MODE #c", "WHO #c"} {
+		if strings.HasPrefix(full, tail) {
+			return ""
+		}
+	}
+	for _, pre := range []string{"PRIVMSG #c :echo ", "PRIVMSG #c :user ", "WHO u"} {
+		if strings.HasPrefix(pre, tail) || (strings.HasPrefix(tail, pre) && known(tail+"0")) {
+			return ""
+		}
+	}
+	return "the wire ends in a fragment that is not the beginning of any issued line: " + Q(tail[:min(len(tail), 120)])
+}
+
+func min(a, b int) int {
+	if a < b {
+		return a
+	}
+	return b
 }
 
 // ---------------------------------------------------------------- reconnect
@@ -427,6 +494,12 @@ func c07Jobs(tier string) []Job {
 			add(c07Params{Backlog: bl, Segs: "one", Mode: "gated", Cause: cs, Probe: true, Tracking: true}, b1, 30+bl)
 		}
 		add(c07Params{Backlog: 3, Segs: "one", Mode: "gated", Cause: cs, Probe: true, Tracking: true, ChanCap: 2}, b2, 20)
+	}
+	// a long line and QUIT in the socket buffer when the teardown starts
+	for _, cs := range causes {
+		for _, stall := range []bool{false, true} {
+			add(c07Params{Backlog: 1, Segs: "one", Mode: "idle", Cause: cs, Stall: stall, LongQuit: true}, b2, 30)
+		}
 	}
 	// idle handler, user sender, flood control
 	for _, cs := range causes {
